@@ -49,6 +49,16 @@ Proof.
   intros Hd H. unfold factor_ok, get_cell. rewrite H, Hd. reflexivity.
 Qed.
 
+Lemma factor_ok_ext S s1 s2 f fd : nth f s1 [] = nth f s2 [] ->
+  (forall w d, f_derived fd = Some w -> In d (w_deps w) -> nth d s1 [] = nth d s2 []) ->
+  factor_ok S s1 f fd = factor_ok S s2 f fd.
+Proof.
+  intros H Hd. unfold factor_ok, get_cell. rewrite H. f_equal. apply forallb_ext_l. intros t.
+  destruct (nth t (nth f s2 []) None); [|reflexivity]. f_equal.
+  destruct (f_derived fd) as [w|] eqn:E; [|reflexivity]. f_equal. unfold window_args.
+  apply map_ext_in. intros d Hin. apply map_ext. intros j. unfold get_cell. rewrite (Hd w d eq_refl Hin). reflexivity.
+Qed.
+
 (** * The row of a within-trial derived factor *)
 Section Within.
 Variable S : sem.
